@@ -124,10 +124,14 @@ OUTER_REPS = {
 }
 
 
-def run_outer(ctx, repo, cg, d, keys, c):
+ZERO_PADDED = {"bivector in 4-D, zero-padded to the even layout": (4, [0, 3, 5, 6, 9, 10, 12, 15], {0, 15}),
+               "vector in 3-D, zero-padded to the full layout": (3, list(range(8)), {0, 3, 5, 6, 7})}
+
+
+def run_outer(ctx, repo, cg, d, keys, c, zero=()):
     fn = ctx.func(f"codegen.{cg}")
     alg = outer_algebra(d)
-    coeffs = {k: Poly.atom(f"a{k}") for k in keys}
+    coeffs = {k: (Poly() if k in zero else Poly.atom(f"a{k}")) for k in keys}
     x = spec_mv(alg, coeffs)
     log = []
     x2 = spec_mv(alg, coeffs, log)
@@ -149,9 +153,10 @@ def as_coeffs(v):
     return None
 
 
-@rule("C19.outerexp", props=["C19"], min_instances=5, rewrites=[
+@rule("C19.outerexp", props=["C19", "C08"], min_instances=7, rewrites=[
     ("strict bound (equivalent for pure grades >= 1: the d-th wedge power of such an element vanishes)", ("codegen", "    while j <= k:\n        Wj = Ws[-1] ^ x", "    while j < k:\n        Wj = Ws[-1] ^ x")),
 ], mutants=[
+    ("series bound from the stored grades", ("codegen", "    k = alg.d\n", "    k = alg.d // (max(x.grades, default=0) or 1)\n")),
     ("divide by j + 1", ("codegen", "        Wj._values = tuple(v / j for v in Wj._values)", "        Wj._values = tuple(v / (j + 1) for v in Wj._values)")),
     ("series truncated after the quadratic term", ("codegen", "    while j <= k:\n        Wj = Ws[-1] ^ x", "    while j < 3:\n        Wj = Ws[-1] ^ x")),
     ("recurrence wedges with the previous term", ("codegen", "        Wj = Ws[-1] ^ x\n", "        Wj = Ws[-1] ^ Ws[-1]\n")),
@@ -177,6 +182,24 @@ def outerexp(ctx):
             k0 = sorted(wrong)[0]
             ctx.violation(c, f"outerexp of a {name} differs from sum_k x^k/k! on {len(wrong)} blade(s), e.g. blade {k0:#b}: "
                              f"got {got.get(k0)!r}, expected {want.get(k0)!r}", fn)
+    # the same element stored with explicit zeros for other blades must give the same result (C08)
+    for name, (d, keys, zero) in ZERO_PADDED.items():
+        c = f"codegen.codegen_outerexp#{name}"
+        fn, out, coeffs, _ = run_outer(ctx, repo, "codegen_outerexp", d, keys, c, zero)
+        if out[0] == "raise":
+            ctx.violation(c, f"raises {out[1]}", fn)
+            continue
+        got = as_coeffs(out[1])
+        if got is None:
+            raise Unknown(c, f"returns {out[1]!r}", fn)
+        want = outerexp_spec({k: v for k, v in coeffs.items() if not v.is_zero()}, d)
+        if got == want:
+            ctx.ok(c, fn, blades=len(want))
+        else:
+            wrong = sorted(k for k in set(got) | set(want) if got.get(k) != want.get(k))
+            ctx.violation(c, f"outerexp of a {name} differs from the result for the sparse storage of the same element on "
+                             f"blades {[bin(k) for k in wrong[:4]]}: the series is cut off according to which blades are "
+                             f"stored, not which are non-zero", fn)
 
 
 @rule("C19.outertrig", props=["C19"], min_instances=6, mutants=[
